@@ -23,16 +23,17 @@ public:
     void push(const std::string& s) { std::lock_guard<std::mutex> L(m); for (char c : s) q.push_back(c); cv.notify_all(); }
     void close() { std::lock_guard<std::mutex> L(m); closed = true; cv.notify_all(); }
 protected:
+    // one lock per refill: everything queued so far becomes the get area (a char-by-char refill would look like a polling loop to the scheduler)
     int_type underflow() override {
         std::unique_lock<std::mutex> L(m);
         while (q.empty() && !closed) cv.wait(L);
         if (q.empty()) return traits_type::eof();
-        ch = q.front(); q.pop_front();
-        setg(&ch, &ch, &ch + 1);
-        return traits_type::to_int_type(ch);
+        buf.assign(q.begin(), q.end()); q.clear();
+        setg(&buf[0], &buf[0], &buf[0] + buf.size());
+        return traits_type::to_int_type(buf[0]);
     }
 private:
-    std::mutex m; std::condition_variable cv; std::deque<char> q; bool closed = false; char ch = 0;
+    std::mutex m; std::condition_variable cv; std::deque<char> q; bool closed = false; std::string buf;
 };
 
 /** Output stream buffer: splits into lines, records them and forwards them to a file descriptor. */
@@ -92,6 +93,7 @@ inline int runScriptInChild(const std::vector<std::string>& script, int outFd, i
             } else if (line.rfind("@sleep", 0) == 0) {
                 std::this_thread::sleep_for(std::chrono::milliseconds(atoi(line.c_str() + 6)));
             } else if (line == "@eof") {
+                marker("> @eof");
                 break;
             } else {
                 std::istringstream ts(line); std::string w0; ts >> w0;
@@ -102,6 +104,7 @@ inline int runScriptInChild(const std::vector<std::string>& script, int outFd, i
                 if (w0 == "quit") break;
             }
         }
+        marker("> @close");          // end of input: releases a pending infinite / ponder search like "quit" does
         ib.close();
         proto.join();
         eng.join();
@@ -251,7 +254,7 @@ inline Analysis analyse(const Transcript& t, bool checkResults = true) {
             pt.onCommand(cmd);
             if (w == "isready") { a.nIsReady++; engineExists = true; }
             if (w == "setoption" || w == "go") engineExists = true;
-            if (w == "stop" || w == "ponderhit" || w == "quit" || w == "go") for (auto& g : a.gos) if (g.nBestmove == 0) g.released = true;
+            if (w == "stop" || w == "ponderhit" || w == "quit" || w == "go" || w == "@eof" || w == "@close") for (auto& g : a.gos) if (g.nBestmove == 0) g.released = true;
             if (w == "go") {
                 GoResult g; g.goCmd = cmd; g.root = pt.cur; g.rootKnown = pt.known;
                 std::string x; bool sm = false;
